@@ -45,8 +45,14 @@ func genConn(r *core.Rand, mode string, rules []string) *connCase {
 			Host: "origin.test", Scheme: schemeOf(mode), Last: i == n-1, AllowBody: true,
 			ID:        fmt.Sprintf("c%d-%x", idSeq.Add(1), r.U64()&0xffffff),
 			ExtraName: []string{"X-Custom", "X-Trace-Id", "Cookie", "X-Empty", "X-Added"},
+			// protocol upgrades whose Connection field nominates further names (credential fields, the standard
+			// hop-by-hop set, managed and custom names) with the nominated fields present
+			UpgradeNominate: 12,
 		}
-		if mode == "mitm" {
+		if mode == "direct-gate" {
+			o.ProxyAuth = gateValue()
+		}
+		if isMITM(mode) {
 			o.HostAlts = []string{"origin.test:443"}
 		} else {
 			o.HostAlts = []string{"origin.test:80", "origin.test:8080"}
@@ -99,15 +105,36 @@ func Run(ctx *core.Ctx) {
 	ctx.SetRule("keep-alive client connections of 1-4 generated requests (method, origin/absolute form, query escapes, repeated fields, " +
 		"Connection-nominated names, pre-existing Via/X-Forwarded-*, body none/Content-Length/chunked with random chunking and sizes around 4 KiB/32 KiB, " +
 		"arbitrary client write segmentation, 30% pipelined) through the real proxy in direct / upstream-proxy / upstream-proxy-with-credentials / MITM " +
-		"configuration with and without header rules; a request is non-trivial when it has a body, a repeated field, or a hop-by-hop/managed field; " +
+		"/ proxy-basic-auth / PAC (DIRECT for intercepted https, PROXY for http) configuration with and without header rules; 12% of the requests are protocol upgrades whose Connection field nominates " +
+		"further names (Proxy-Authorization, Authorization, the standard hop-by-hop set, managed and custom names; token lists in every spelling, " +
+		"nominated fields present with several values); before that, sequentially, HISTORY cases: a request or an origin response nominates names " +
+		"in Connection and later requests on the same connection / other connections / inside intercepted tunnels / through the other listeners of " +
+		"the process carry those names end-to-end (whole history compared with Model.ReqSeq.runProcess); a request is non-trivial when it has a body, a repeated field, or a hop-by-hop/managed field; " +
 		"distinct = distinct (configuration, request bytes)")
 	pool := &envPool{envs: map[envKey]*env{}, ctx: ctx}
 	defer pool.closeAll()
 	for _, c := range core.LoadCorpus(ctx.Root, "C01") {
 		replayWith(ctx, pool, c)
 	}
+	// HISTORY cases, one after the other: a message nominates names in Connection, later requests (same connection,
+	// other connections, intercepted tunnels, other listeners of this process) carry those names end-to-end
+	nHist := ctx.N(160, 2500)
+	for i := 0; i < nHist; i++ {
+		r := ctx.Rng.Sub()
+		hc := genHistory(r)
+		if i < 2 {
+			ctx.Sample(hc)
+		}
+		runHistory(ctx, pool, hc)
+	}
+	if ctx.NumFindings() > 0 {
+		// the recorded cases or the histories already failed: what this process forwards depends on what it handled
+		// before (or the pipeline is broken outright). The verdict is decided, and the concurrent part below would run
+		// against a process whose state is already known to be corrupted (it may not even survive it)
+		return
+	}
 	nConn := ctx.N(2500, 40000)
-	modes := []string{"direct", "direct", "upstream", "upstream-auth", "mitm"}
+	modes := []string{"direct", "direct", "upstream", "upstream-auth", "mitm", "direct-gate", "mitm-pac", "pac-upstream"}
 	// slow uploads (a pause inside the body that is longer than the read-header timeout)
 	nSlow := ctx.N(40, 600)
 	type job struct {
@@ -158,6 +185,9 @@ func replayWith(ctx *core.Ctx, pool *envPool, raw json.RawMessage) {
 	json.Unmarshal(raw, &k)
 	var cc connCase
 	switch k.Kind {
+	case "history":
+		replayHistory(ctx, pool, raw)
+		return
 	case "one":
 		var o oneReq
 		json.Unmarshal(raw, &o)
